@@ -166,4 +166,16 @@ theorem fact_close_only_stops_the_poller :
     Facts.storeCloseBody = ["s.cancel()", "<-s.done", "return nil"] := by
   decide
 
+/-! ### T1: functions the model transcribes, statement by statement (white space collapsed) -/
+
+def expected_checkPutText : List String := ["if !utf8.Valid(value) { return value, nil }", "trimmed := bytes.TrimSpace(value)", "if len(trimmed) == len(value) { return value, nil } else if putArgs.Verbatim { return value, nil } else if putArgs.TrimSpace { return trimmed, nil }", "return nil, errors.New(\"text value has surrounding whitespace, \" + \"specify --verbatim to keep the space or --trim-space to remove it\")"]
+
+/-- checkPutText: binary as it is; text without surrounding white space as it is; otherwise by flag; otherwise refused -/
+theorem fact_checkPutText_as_transcribed : Facts.body_checkPutText = expected_checkPutText := by rfl
+
+def expected_kv_get : List String := ["secret := kv.secrets[name]", "if secret == nil { return nil, ErrNotFound }", "bs, ok := secret.Versions[secret.ActiveVersion]", "if !ok { return nil, errors.New(\"[unexpected] active secret version missing from DB\") }", "return &api.SecretValue{ Value: []byte(bs), Version: secret.ActiveVersion, }, nil"]
+
+/-- kv.get: a fresh copy of the active version's bytes and its number -/
+theorem fact_kv_get_as_transcribed : Facts.body_kv_get = expected_kv_get := by rfl
+
 end Setec.C18
